@@ -463,7 +463,7 @@ def initial_snapshots():
 def run(ctx):
     quick = ctx.quick
     depth = 2 if quick else 3
-    fault_depth = 1 if quick else 2
+    fault_depth = 1      # (thorough with 2 and 6000 states did not finish within 50 minutes)
     total = Stats()
     seen = {}
     frontier = []
@@ -471,7 +471,7 @@ def run(ctx):
         seen[key] = hist
         frontier.append((hist, snap))
     level = 0
-    max_states = 400 if quick else 6000
+    max_states = 400 if quick else 2500
     capped = False
     while frontier and level <= depth:
         nsl = 16 if (level <= fault_depth and len(frontier) < 64) else (4 if len(frontier) < 64 else 1)
